@@ -37,6 +37,8 @@ CLAIMED = {
           "Partial: binary32 rounding of libm exp/tanh is outside the proof (glibc is called by both sides of the tie); the real-number theorems and the measured 1e-4 agreement together support 'up to rounding'."),
  "C09": C("Coq theorems, generic in the number structure and for arbitrary architectures (any mix of dense/conv/deconv/max-pool/feedback layers, skip and loop connections, dropout on any subset): learn returns with every training flag off whether it ran all epochs or stopped early; validate evaluates every sample on a network whose flags are all off (also when called from inside learn); with all flags off forward/predict equal those of the identical network configured without dropout. Tie: learn with and without validation data and early stopping, dropout in plain layers and inside feedback blocks, flags read back after each call; falsifier: predict twice after learn/validate must be bit-identical and equal to the dropout-free twin.",
           "Coq proof (structural induction over layers and the epoch loop) + differential run + flag/twin oracle", "3/C09"),
+ "C02": C("Coq theorems, for every configuration (non-square inputs and kernels, asymmetric stride/padding/dilation) and any number structure: the dense layer returns activation(W x + b) with each row sum taken left to right; the convolution returns the zero-padded, strided, dilated cross-correlation (the bounds guard of the loop is proved always true, so no tap is dropped); the deconvolution returns, per output cell, the sum of x[c][i][j]*K[k][c][oi+p-i*s][oj+p-j*s] with output extent (i-1)*s+k-2p; the max-pool returns for each window a value that dominates every window element and is attained at the recorded coordinates (proved over the reals and over all finite binary32 inputs); a flat vector is re-chunked to exactly the tensor it was flattened from, so the three spatial layers give identical results for both representations; a network without skip/loop connections predicts the left-to-right composition of its layers. Tie: every layer kind x configuration lattice x both representations, plus sequential networks, compared with the implementation (1e-4; in practice bit-exact); falsifier: independent direct-definition implementations in f64.",
+          "Coq proof (index arithmetic, list/chunk lemmas, order reasoning with Flocq) + differential run + reference operators", "3/C02"),
 }
 PENDING = {}
 
